@@ -21,6 +21,9 @@ GEN_CFG = """CONSTANTS
   MaxBatches = %(batches)d
   NullMode = "%(nullmode)s"
   AnyOrder = %(anyorder)s
+  Sample = %(sample)s
+  Replicas = %(replicas)d
+  Seed = %(seed)d
 INIT Init
 NEXT Next
 INVARIANTS Inv Emit
@@ -30,13 +33,16 @@ CHECK_DEADLOCK FALSE
 
 def gen_histories(chk, schemas, rows, groups, batches, nullmode="all", anyorder=False, simulate=None, depth=60,
                   workers=None, limit=None):
+    """Exhaustive (simulate=None) or sampled histories. Sampling does NOT use `tlc -simulate` (which spends its
+    time enumerating successors of wide schemas): null patterns, batch sizes and def-level choices are drawn
+    with RandomElement inside a breadth-first run, `simulate` draws per schema; reproducible from VERIF_SEED."""
     cfg = GEN_CFG % dict(schemas="{%s}" % ", ".join(map(str, schemas)), rows="{%s}" % ", ".join(map(str, rows)),
-                         groups=groups, batches=batches, nullmode=nullmode, anyorder="TRUE" if anyorder else "FALSE")
-    r = common.run_tlc("MC_WriterGen", constants_text=cfg, simulate=simulate, depth=depth if simulate else None,
-                       workers=workers, timeout=2400)
+                         groups=groups, batches=batches, nullmode=nullmode, anyorder="TRUE" if anyorder else "FALSE",
+                         sample="TRUE" if simulate else "FALSE", replicas=max(1, (simulate or 1) // 4), seed=common.seed() % 100000)
+    r = common.run_tlc("MC_WriterGen", constants_text=cfg, workers=workers, timeout=2400, tseed=common.seed())
     if r.violated:
         raise common.InfraError("MC_WriterGen: Writer.tla invariant violated: %s\n%s" % (r.violated, r.out[-2000:]))
-    if r.rc != 0 and not (simulate and r.cases):
+    if r.rc != 0:
         raise common.InfraError("MC_WriterGen failed rc=%s\n%s" % (r.rc, r.out[-2000:]))
     chk.add_tlc(r)
     seen, out = set(), []
